@@ -120,7 +120,12 @@ func c19GenKey(kt string, who string) (*c19Key, error) {
 	case "ed25519":
 		priv, _, err = crypto.GenerateEd25519Key(rd)
 	case "secp256k1":
-		priv, _, err = crypto.GenerateSecp256k1Key(rd)
+		// GenerateSecp256k1Key ignores its reader; derive the scalar from the seeded stream instead
+		var b [32]byte
+		io.ReadFull(rd, b[:])
+		b[0] &= 0x7f // below the group order
+		b[31] |= 1   // non-zero
+		priv, err = crypto.UnmarshalSecp256k1PrivateKey(b[:])
 	case "ecdsa":
 		var b [32]byte
 		io.ReadFull(rd, b[:])
